@@ -121,7 +121,13 @@ func (g *c12Gen) nodes(depth int, inMacro int) []MNode {
 				}
 				nd.Params = append(nd.Params, p)
 			}
-			nd.Body = append(g.nodes(depth-1, idx), g.probe())
+			nd.Body = g.nodes(depth-1, idx)
+			if drawBool(g.t, "setinbody") {
+				// a binding made directly in the macro body must stay in the macro
+				e := g.expr()
+				nd.Body = append(nd.Body, MNode{K: "set", Name: pick(g.t, "msn", c12Names), E: &e})
+			}
+			nd.Body = append(nd.Body, g.probe())
 			out = append(out, nd)
 		case "call":
 			max := 2
@@ -137,6 +143,12 @@ func (g *c12Gen) nodes(depth int, inMacro int) []MNode {
 				nd.Es = append(nd.Es, g.expr())
 			}
 			out = append(out, nd, g.probe())
+			if drawBool(g.t, "probeall") {
+				for _, nm := range c12Names {
+					e := ME{K: "name", N: nm}
+					out = append(out, MNode{K: "probe", E: &e})
+				}
+			}
 		case "include":
 			g.nfile++
 			name := fmt.Sprintf("/inc%d.tpl", g.nfile)
